@@ -768,6 +768,11 @@ func icTimeLocation(fr *frame, args []value) value {
 func icTimeNow(fr *frame, args []value) value {
 	m := fr.m
 	st := m.st()
+	if m.fixedNow != 0 {
+		// verifFixedClock: concrete readings one millisecond apart
+		m.nowCount++
+		return timeVal{BV(m.fixedNow+uint64(m.nowCount)*1000000, 64)}
+	}
 	m.nowCount++
 	name := fmt.Sprintf("now#%d", m.nowCount)
 	t := st.Var(name, KBV, 64)
